@@ -246,6 +246,12 @@ def run_history(sc, seed, i, known, stats):
         a, b = strip(ra["after"]), strip(rb["after"])
         d = world.diff_snap(a, b, ignore=("ino", "blocks", "nlink"))
         d = [p for p in d if not (a.get(p, {}).get("kind") == "d" and b.get(p, {}).get("kind") == "d")]
+        # the property is about WHICH files end up in the destination and their CONTENTS: a file that a resumed run does not
+        # transfer again because its bytes are the recorded ones (an empty file rewritten, a touch) keeps its older mtime
+        mt_only = [p for p in d if a.get(p, {}).get("kind") == "f" and b.get(p, {}).get("kind") == "f" and a[p].get("sha") == b[p].get("sha") and a[p].get("size") == b[p].get("size")]
+        if mt_only:
+            stats["mtime_only_differences"] = stats.get("mtime_only_differences", 0) + len(mt_only)
+            d = [p for p in d if p not in mt_only]
         stats["twin_steps"] += 1
         if d or (ra["rc"] != rb["rc"]):
             klass = None
